@@ -680,8 +680,11 @@ func TestScheduledIssuanceAndReload(t *testing.T) {
 		nthreads := 3
 		pre := map[int]int{}
 
-		for i, n := 0, rapid.IntRange(0, 6).Draw(t, "npre"); i < n; i++ {
-			pre[rapid.IntRange(0, 150).Draw(t, "at")] = rapid.IntRange(0, nthreads-1).Draw(t, "to")
+		// one byte per scheduling decision: a small value preempts the running thread in favour of another one
+		for step, v := range rapid.SliceOfN(rapid.Byte(), 160, 160).Draw(t, "schedule") {
+			if v < 9 {
+				pre[step] = int(v) % nthreads
+			}
 		}
 
 		first := rapid.IntRange(0, nthreads-1).Draw(t, "first")
